@@ -387,22 +387,34 @@ class ParallelSpecFinder(Generic[ClassType1, ObjType1, ClassType2, ObjType2]):
             sp2,
         ) = ParallelSpecFinder._search_matching_info_init(matching_info)
 
+        # The pairs whose rules (as currently chosen in the spec maps) have been, or
+        # are being, checked against each other.
+        pairs: Set[Tuple[int, int]] = set()
+
         # Recursive helper function that tries to populate the spec maps in a way
         # that no label appears on the LHS more than one time.
         def _rec(
             id1: int,
             id2: int,
-            id_sets: Tuple[Set[int], Set[int]],
+            id_sets: Tuple[Set[int], Set[int], Set[Tuple[int, int]]],
         ) -> bool:
             # Check base cases (invalid = -1, valid = 1)
             bc = ParallelSpecFinder._search_matching_info_recursion_base_cases(
-                id1, id2, matching_info, matching_info1, matching_info2, sp1, sp2
+                id1,
+                id2,
+                matching_info,
+                matching_info1,
+                matching_info2,
+                sp1,
+                sp2,
+                pairs,
             )
             if bc:
                 return bool(bc + 1)
 
             # If ids have appeared before, we don't want to clean them when done
             rec1, rec2 = id1 in sp1, id2 in sp2
+            pairs.add((id1, id2))
 
             # For all children that matches for given parent pair where they are either
             # not in spec maps or they are mapped to the children we are looking at.
@@ -415,7 +427,11 @@ class ParallelSpecFinder(Generic[ClassType1, ObjType1, ClassType2, ObjType2]):
                 sp1[id1], sp2[id2] = children1, children2
 
                 # Construct cleaning sets that are passed down the recursion
-                to_clean: Tuple[Set[int], Set[int]] = (set(), set())
+                to_clean: Tuple[Set[int], Set[int], Set[Tuple[int, int]]] = (
+                    set(),
+                    set(),
+                    set(),
+                )
 
                 # If all the children are valid, compared one at a time in the order
                 # they were matched in the first search.
@@ -432,17 +448,20 @@ class ParallelSpecFinder(Generic[ClassType1, ObjType1, ClassType2, ObjType2]):
                     # Update the cleaning set so any failing ancestor can remove.
                     id_sets[0].update(to_clean[0], () if rec1 else (id1,))
                     id_sets[1].update(to_clean[1], () if rec2 else (id2,))
+                    id_sets[2].update(to_clean[2], ((id1, id2),))
                     return True
                 # If failed, remove all descendants that populated the spec maps.
                 ParallelSpecFinder._clean_descendants(
-                    *to_clean, id1, id2, sp1, sp2, rec1, rec2
+                    to_clean[0], to_clean[1], id1, id2, sp1, sp2, rec1, rec2
                 )
+                pairs.difference_update(to_clean[2])
+            pairs.discard((id1, id2))
             return False
 
         if _rec(
             self._pi1.root_eq_label,
             self._pi2.root_eq_label,
-            (set(), set()),
+            (set(), set(), set()),
         ):
             return sp1, sp2
         return None
@@ -471,6 +490,7 @@ class ParallelSpecFinder(Generic[ClassType1, ObjType1, ClassType2, ObjType2]):
         matching_info2: MatchingInfoSingle,
         sp1: SpecMap,
         sp2: SpecMap,
+        pairs: Set[Tuple[int, int]],
     ) -> int:
         if ParallelSpecFinder._inconsistent_with_matching_info(
             id1, id2, matching_info, matching_info1, matching_info2, sp1, sp2
@@ -480,8 +500,9 @@ class ParallelSpecFinder(Generic[ClassType1, ObjType1, ClassType2, ObjType2]):
         if ((), ()) in matching_info[(id1, id2)]:
             sp1[id1], sp2[id2] = (), ()
             return ParallelSpecFinder._VALID
-        # If both are assigned, we are done
-        if id1 in sp1 and id2 in sp2:
+        # If the pair was checked with the rules both have, we are done. (That both
+        # are assigned is not enough: their children must be checked as pairs too.)
+        if (id1, id2) in pairs:
             return ParallelSpecFinder._VALID
         return ParallelSpecFinder._UNKNOWN
 
@@ -597,10 +618,14 @@ class EqPathParallelSpecFinder(
         # For storing results of eq path checking.
         eq_path_tracker: EqPathTracker = defaultdict(lambda: defaultdict(dict))
 
+        # The pairs whose rules (as currently chosen in the spec maps) have been, or
+        # are being, checked against each other.
+        pairs: Set[Tuple[int, int]] = set()
+
         def _rec(
             id1: int,
             id2: int,
-            id_sets: Tuple[Set[int], Set[int]],
+            id_sets: Tuple[Set[int], Set[int], Set[Tuple[int, int]]],
         ) -> bool:
             bc = self._search_matching_info_recursion_base_cases_eq(
                 id1,
@@ -612,17 +637,23 @@ class EqPathParallelSpecFinder(
                 sp2,
                 self._path[-1],
                 eq_path_tracker,
+                pairs,
             )
             if bc:
                 return bool(bc + 1)
             rec1, rec2 = id1 in sp1, id2 in sp2
+            pairs.add((id1, id2))
             for children1, children2 in filter(
                 lambda c: (id1 not in sp1 or c[0] == sp1[id1])
                 and (id2 not in sp2 or c[1] == sp2[id2]),
                 matching_info[(id1, id2)],
             ):
                 sp1[id1], sp2[id2] = children1, children2
-                to_clean: Tuple[Set[int], Set[int]] = (set(), set())
+                to_clean: Tuple[Set[int], Set[int], Set[Tuple[int, int]]] = (
+                    set(),
+                    set(),
+                    set(),
+                )
 
                 # Check if the path required for the eq labels actually matches
                 if self._eq_path_matches(
@@ -652,16 +683,19 @@ class EqPathParallelSpecFinder(
                     if valid:
                         id_sets[0].update(to_clean[0], () if rec1 else (id1,))
                         id_sets[1].update(to_clean[1], () if rec2 else (id2,))
+                        id_sets[2].update(to_clean[2], ((id1, id2),))
                         return True
                 EqPathParallelSpecFinder._clean_descendants(
-                    *to_clean, id1, id2, sp1, sp2, rec1, rec2
+                    to_clean[0], to_clean[1], id1, id2, sp1, sp2, rec1, rec2
                 )
+                pairs.difference_update(to_clean[2])
+            pairs.discard((id1, id2))
             return False
 
         if _rec(
             self._pi1.root_eq_label,
             self._pi2.root_eq_label,
-            (set(), set()),
+            (set(), set(), set()),
         ):
             return sp1, sp2
         return None
@@ -677,6 +711,7 @@ class EqPathParallelSpecFinder(
         sp2: SpecMap,
         relations: Tuple[int, int, int, int],
         eq_path_tracker: EqPathTracker,
+        pairs: Set[Tuple[int, int]],
     ) -> int:
         pid1, pid2, idx1, idx2 = relations
         if EqPathParallelSpecFinder._inconsistent_with_matching_info(
@@ -690,9 +725,9 @@ class EqPathParallelSpecFinder(
                 return EqPathParallelSpecFinder._INVALID
             sp1[id1], sp2[id2] = (), ()
             return EqPathParallelSpecFinder._VALID
-        # If both ids are set we still need to check if they are valid in terms
-        # of eq paths since we may have arrived from different parents.
-        if id1 in sp1 and id2 in sp2:
+        # If the pair was checked already we still need to check if the ids are valid
+        # in terms of eq paths since we may have arrived from different parents.
+        if (id1, id2) in pairs:
             if self._eq_path_matches(
                 id1, id2, pid1, pid2, idx1, idx2, sp1, sp2, eq_path_tracker
             ):
